@@ -223,8 +223,9 @@ def run(ctx):
             variants = [("lam as filled matrix", dict(b, lam=np.full((n, n), b["lam"]))),
                         ("lam as np.float32", dict(b, lam=np.float32(b["lam"]))), ("beta as int", dict(b, beta=4)),
                         ("beta as np.float32", dict(b, beta=np.float32(4.0))), ("eps as int 0", dict(b, eps=0)), ("eps as np.float64", dict(b, eps=np.float64(0.0)))]
+            # (also through the joint front end with its two series: one number and the vector filled with it are the same request)
+            variants.append(("beta as filled vector", dict(b, beta=np.full(T, 4.0))))
             if not b["joint"]:
-                variants.append(("beta as filled vector", dict(b, beta=np.full(T, 4.0))))
                 # a zero switching cost in both forms (compared with each other)
                 z0 = e2e.traced_run(dict(b, beta=0.0))
                 z1 = e2e.traced_run(dict(b, beta=np.zeros(T)))
